@@ -22,7 +22,7 @@ VARIABLES
   sendQ, failQ, recvq,           \* channel buffers; FIFO of senders parked on sendQ (inner select)
   srvGot, replied,               \* what the server received per connection; requests answered
   cpc,                           \* caller pc: "idle" | "calling" | "connected" | "enq" | "wait" | "done" | "timedout"
-  issuedAfterDead,               \* ghost: requests issued when every earlier connection was already known dead (closed locally)
+  issuedAfterDead,               \* ghost: requests issued when every earlier connection was already known dead (closed locally), or handed over
   wroteDead, dialHealthy         \* ghosts: a write was attempted on a connection known dead / a dial happened although the current connection was healthy
 vars == <<isClosed, cur, nconn, lclosed, pclosed, connDone, spc, sm, rpc, sendQ, failQ, recvq, srvGot, replied, cpc, issuedAfterDead, wroteDead, dialHealthy>>
 
@@ -121,7 +121,10 @@ SCheck(k) ==
   /\ spc' = [spc EXCEPT ![k] = IF Fix /\ ~Live(k) THEN "handover" ELSE "write"]
   \* the decision to write is taken here: it must not be taken for a connection already known (closed locally) to be dead
   /\ wroteDead' = (wroteDead \/ (~(Fix /\ ~Live(k)) /\ lclosed[k] /\ sm[k] \in issuedAfterDead))
-  /\ UNCHANGED <<isClosed, cur, nconn, lclosed, pclosed, connDone, sm, rpc, sendQ, failQ, recvq, srvGot, replied, cpc, issuedAfterDead, dialHealthy>>
+  \* a request that the client holds back from a connection it knows to be dead has been saved from the race with the
+  \* close: from here on it is the client's job to get it to the server (same obligation as a call issued after the close)
+  /\ issuedAfterDead' = IF Fix /\ ~Live(k) THEN issuedAfterDead \cup {sm[k]} ELSE issuedAfterDead
+  /\ UNCHANGED <<isClosed, cur, nconn, lclosed, pclosed, connDone, sm, rpc, sendQ, failQ, recvq, srvGot, replied, cpc, dialHealthy>>
 SWrite(k) ==     \* conn.Write(m.req): fails on a locally closed connection; on a connection the peer has closed it may
                  \* fail (reset) or "succeed" with the request lost
   /\ spc[k] = "write"
@@ -162,8 +165,11 @@ Reply(k, r) ==
   /\ r \in srvGot[k] /\ r \notin replied /\ ~pclosed[k] /\ ~lclosed[k] /\ rpc[k] = "reading"
   /\ replied' = replied \cup {r} /\ cpc' = [cpc EXCEPT ![r] = IF cpc[r] = "wait" THEN "done" ELSE cpc[r]]
   /\ UNCHANGED <<isClosed, cur, nconn, lclosed, pclosed, connDone, spc, sm, rpc, sendQ, failQ, recvq, srvGot, issuedAfterDead, wroteDead, dialHealthy>>
+\* the statement's premise: the server closes a connection while the client is idle (after any response, idle close,
+\* restart between calls, close notification), not in the middle of a call
+NoCallInProgress == \A r \in Reqs : cpc[r] \in {"idle", "done", "timedout"}
 ServerClose(k) ==
-  /\ k <= nconn /\ ~pclosed[k] /\ srvGot[k] \subseteq replied
+  /\ k <= nconn /\ ~pclosed[k] /\ srvGot[k] \subseteq replied /\ NoCallInProgress
   /\ pclosed' = [pclosed EXCEPT ![k] = TRUE]
   \* a call that is in progress while the server closes a connection races with that close: the property speaks of calls issued after it
   /\ issuedAfterDead' = {r \in issuedAfterDead : cpc[r] \in {"idle", "done"}}
@@ -183,6 +189,7 @@ NoWriteOnKnownDead == ~wroteDead
 \* a connection loss never makes a later healthy connection be treated as closed
 HealthyNotMarkedClosed == ~(isClosed /\ Healthy(cur)) /\ ~dialHealthy
 \* a call issued after the close is known reaches the server and is answered without the ticker, a timeout or another call
-NoStranding == (~ENABLED Internal) => \A r \in issuedAfterDead : (cpc[r] \in {"wait", "done"} => r \in replied)
+\* (nconn < MaxConn: the bound on connections is a bound of the model, not of the client)
+NoStranding == (~ENABLED Internal /\ nconn < MaxConn) => \A r \in issuedAfterDead : (cpc[r] \in {"wait", "done"} => r \in replied)
 TypeOK == Len(failQ) <= 1 /\ cur \in 0..MaxConn /\ nconn \in 0..MaxConn
 =============================================================================
